@@ -87,6 +87,11 @@ func RunUnit(u *Unit, shard, nshards int, deadline time.Time, boundOverride int)
 	e := &Explorer{Name: u.Name, Bound: bound, Prune: u.Prune && !u.Sc.UsesFS && os.Getenv("VERIF_NOPRUNE") == "", Shard: shard, NShards: nshards,
 		Deadline: deadline, Run: u.Sc.Runner(dir), Check: u.Check, Goal: u.Goal, EnvChoices: u.Env, NoConfirm: u.NoConfirm, AllVisible: u.AllVisible}
 	e.Explore()
+	if e.HarnessErr == "" && e.Stats.Execs > 0 && e.Stats.Outcomes == 0 && (nshards <= 1 || shard == 0) {
+		// every execution was abandoned before it could be judged (e.g. pruned against its own
+		// earlier state): the silence of such a unit would mean nothing
+		e.HarnessErr = fmt.Sprintf("vacuous exploration: %d executions, none observed (pruned %d)", e.Stats.Execs, e.Stats.Pruned)
+	}
 	// Conformance validation (sampling, decides nothing by its silence): the same body with real
 	// goroutines and real primitives; every free-running trace must satisfy the same oracles. A
 	// violation seen only here would mean the controlled world does not over-approximate the
@@ -231,6 +236,9 @@ func ReplayUnit(u *Unit, vec string) int {
 				hist[p.Label]++
 			}
 			fmt.Println("points:", len(x.Res.Points), "steps:", x.Res.Steps, hist)
+			for i, p := range x.Res.Points {
+				fmt.Printf("  point %d: %s n=%d choice=%d tid=%d curEnabled=%v\n", i, p.Label, p.N, p.Choice, p.Tid, p.CurEnabled)
+			}
 			if u.Check != nil {
 				for _, v := range u.Check(x) {
 					fmt.Printf("VIOLATION-IN-REPLAY %s: %s\n", v.Sig, v.Detail)
